@@ -54,6 +54,7 @@ type sched struct {
 	timers       []*vtimer
 	tseq         int
 	switchBudget int
+	lifo         bool
 	maxTicks     int
 	hostWG       sync.WaitGroup
 	done         chan struct{} // closed when the path has ended
@@ -81,13 +82,7 @@ func (s *sched) newG(entry string) *goroutine {
 
 // spawn starts an interpreted goroutine running fn(args).
 func (s *sched) spawn(i *interpreter, fn value, args []value, pos token.Pos) *goroutine {
-	name := "?"
-	switch f := fn.(type) {
-	case *ssa.Function:
-		name = f.String()
-	case *closure:
-		name = f.Fn.String()
-	}
+	name := funcName(fn)
 	g := s.newG(name)
 	g.state = gRunnable
 	s.runq = append(s.runq, g)
@@ -184,6 +179,17 @@ func (s *sched) pickNext() *goroutine {
 					c++
 				}
 			}
+		}
+	}
+	if s.lifo {
+		// adversarial deterministic policy: the most recently woken goroutine first
+		for k := len(s.runq) - 1; k >= 0; k-- {
+			g := s.runq[k]
+			if g.idleWait {
+				continue
+			}
+			s.runq = append(s.runq[:k:k], s.runq[k+1:]...)
+			return g
 		}
 	}
 	for k, g := range s.runq {
